@@ -150,7 +150,8 @@ def rule_no_swallow(ctx: Ctx) -> None:  # noqa: C901
             continue
         for tr in [t for t in walk_no_nested(fn.node) if isinstance(t, ast.Try)]:
             broad = [h for h in tr.handlers if _handler_types(h) & BROAD]
-            if not broad:
+            narrow = [h for h in tr.handlers if not (_handler_types(h) & BROAD)]
+            if not broad and not narrow:
                 continue
             reach = self_user = False
             for c in [c for st in tr.body for c in ast.walk(st) if isinstance(c, ast.Call)]:
@@ -163,6 +164,17 @@ def rule_no_swallow(ctx: Ctx) -> None:  # noqa: C901
                 continue
             n3 += 1
             cfg_f = ctx.cfg(fn)
+            # a NARROW handler around code that runs user functions catches the user's exception of that very type as well: unless it
+            # re-raises the caught exception unchanged, a user KeyError / AttributeError / TimeoutError surfaces as something else
+            for h in narrow:
+                rr = [r for r in ast.walk(h) if isinstance(r, ast.Raise)]
+                same = bool(rr) and all(r.exc is None or (h.name and norm(r.exc) == h.name) for r in rr)
+                hn_ = cfg_f.node(h)
+                falls = EXIT in cfg_f.reachable_from(hn_, normal_only=True) or any(isinstance(cfg_f.stmt.get(x), (ast.Continue, ast.Return)) for x in cfg_f.reachable_from(hn_, normal_only=True))
+                ok_ = same and not falls
+                ctx.add("3-no-swallow", fn, h, ok_, f"`except {'/'.join(sorted(_handler_types(h)))}` around code that runs user functions re-raises the caught exception unchanged" if ok_ else
+                        f"`except {'/'.join(sorted(_handler_types(h)))}` protects code that runs user functions and does not re-raise what it caught: a user function raising that very type is taken for the "
+                        "library's own condition - the caller sees another exception (or none), without attribution", key=f"narrow except {'/'.join(sorted(_handler_types(h)))} in {fn.name}")
             for h in broad:
                 hn = cfg_f.node(h)
                 normal = EXIT in cfg_f.reachable_from(hn, normal_only=True) or any(
@@ -180,6 +192,17 @@ def rule_no_swallow(ctx: Ctx) -> None:  # noqa: C901
                         n3 += 1
                         ctx.add("3-no-swallow", fn, w, False, "contextlib.suppress(Exception) around code that runs user functions", key="suppress")
     ctx.floor("3-no-swallow", n3, 3)
+    # the result of Executor.map / submit carries the exception of the task: a call whose value is discarded drops it
+    dropped = []
+    for fn in P.functions.values():
+        if not fn.module.name.startswith(("pipefunc.map", "pipefunc._pipeline", "pipefunc._utils")):
+            continue
+        for st in walk_no_nested(fn.node):
+            if isinstance(st, ast.Expr) and isinstance(st.value, ast.Call) and isinstance(st.value.func, ast.Attribute) and st.value.func.attr in ("map", "submit") \
+                    and re.search(r"(^|_)(ex|executor|pool|tex|tpe)$|executor", norm(st.value.func.value).rsplit(".", 1)[-1], flags=re.I):
+                dropped.append((fn, st))
+    ctx.add("3-no-swallow", dropped[0][0] if dropped else "pipefunc.map", dropped[0][1] if dropped else "", not dropped, "no result of Executor.map / submit is discarded" if not dropped else
+            f"`{norm(dropped[0][1])[:60]}` discards what the executor returns: an exception raised inside the submitted work is never re-raised - the step looks done although it failed (nothing written, nothing reported)", key="executor-results-consumed")
     for q in ("pipefunc.map._run.run_map", "pipefunc.map._run.run_map_async._run_pipeline"):
         f = P.func(q)
         loops = [lp for lp in walk_no_nested(f.node) if isinstance(lp, ast.For) and "topological_generations" in norm(lp.iter)]
@@ -191,6 +214,18 @@ def rule_no_swallow(ctx: Ctx) -> None:  # noqa: C901
         ctx.add("3-no-swallow", f, lp, not bad and not inside_try, "generation loop has no handler / continue: a failure ends the run before the next generation" if not bad and not inside_try else
                 "the generation loop can continue after a failed generation", key="generation-loop")
     res = P.func("pipefunc.map._run._result")
+    # whether `x` is a pending task is decided by its CLASS; `hasattr(x, "result")` / "try x.result() except AttributeError" look at an
+    # arbitrary user value (sequential execution hands the function's own output through _result)
+    duck = [c for c in ast.walk(res.node) if isinstance(c, ast.Call) and dotted(c.func) in ("hasattr", "getattr", "callable")]
+    inst = [c for c in ast.walk(res.node) if isinstance(c, ast.Call) and dotted(c.func) == "isinstance"]
+    ctx.tri("3-no-swallow", res, (duck or inst or [res.node])[0], bool(inst) and not duck, bool(duck), "_result tells a pending task from a value by isinstance(x, Future)",
+            f"`{norm(duck[0])[:40] if duck else ''}` decides by duck typing whether a value is a pending task: a user function returning an object with such an attribute gets `.result()` called on its OUTPUT in sequential runs only",
+            "discrimination of futures not recognised", key="future-by-class")
+    any_handler = [t for t in ast.walk(res.node) if isinstance(t, ast.Try) and any(isinstance(c, ast.Call) and isinstance(c.func, ast.Attribute) and c.func.attr == "result" for st in t.body for c in ast.walk(st))
+                   and not all(any(isinstance(x, ast.Raise) and x.exc is None for x in ast.walk(h)) for h in t.handlers)]
+    ctx.add("3-no-swallow", res, any_handler[0] if any_handler else res.node, not any_handler, "nothing catches what Future.result() re-raises" if not any_handler else
+            f"`except {'/'.join(sorted(t_ for h in any_handler[0].handlers for t_ in _handler_types(h)))}` around Future.result(): result() re-raises the USER's exception, which may be of exactly that type "
+            "(TimeoutError, AttributeError, ...) - it is then taken for the library's own condition (retry forever / 'not a future') instead of being re-raised", key="future-result-unguarded")
     guarded = [t for t in ast.walk(res.node) if isinstance(t, ast.Try) and any(_handler_types(h) & BROAD for h in t.handlers) and any(isinstance(c, ast.Call) and isinstance(c.func, ast.Attribute) and c.func.attr == "result" for st in t.body for c in ast.walk(st))
                and not all(any(isinstance(x, ast.Raise) for x in ast.walk(h)) for h in t.handlers)]
     ctx.tri("3-no-swallow", res, res.node, ".result()" in norm(res.node) and not guarded, bool(guarded), "Future.result() is called unguarded (re-raises in the parent)", "_result swallows exceptions of Future.result(): worker failures are lost", key="future-result")
